@@ -45,10 +45,18 @@ pub fn huge_cases(prop: u8) -> Vec<HugeCase> {
     let kinds: &[Kind] = match prop {
         1 => &[Kind::PQ],
         2 => &[Kind::DPQ],
-        3 | 6 | 8 | 11 => &[Kind::PQ, Kind::DPQ],
+        3 | 6 | 8 | 9 | 11 | 13 => &[Kind::PQ, Kind::DPQ],
         _ => return vec![],
     };
     let mut v = Vec::new();
+    if matches!(prop, 9 | 13) {
+        for &kind in kinds {
+            for (i, &n) in [300usize, 65_535, 65_536, 65_537, 70_001, 131_073].iter().enumerate() {
+                v.push(HugeCase { huge: true, kind, n, pattern: (i % 4) as u8, seed: i as u64, cost: false, prelude: 0, script: 2, aim: 0 });
+            }
+        }
+        return v;
+    }
     if matches!(prop, 1 | 2 | 11) {
         for &kind in kinds {
             for (i, &n) in POSITION_SIZES.iter().enumerate() {
@@ -460,6 +468,208 @@ fn run_positions<Q: Queue>(c: &HugeCase, prop: u8) -> R {
     Ok(())
 }
 
+/// script 2: every iterator of a big queue, fully and from both ends - lengths, size hints and
+/// cursors beyond 2^16 (C09: iter_mut; C13: iter, &q, into_iter, drain, sorted)
+fn run_iters<Q: Queue>(c: &HugeCase) -> R {
+    use std::collections::HashSet;
+    set_default_hb(HasherKind::Xx);
+    COST.with(|x| x.set(false));
+    let n = c.n;
+    let mut st = c.seed ^ 0x2545_F491_4F6C_DD1D;
+    let v: Vec<(Key, Prio)> = (0..n).map(|i| (Key::new(i as u32, 0), Prio::new(prio(c.pattern, i, n)))).collect();
+    let mut q: Q = Q::from_vec(v);
+    // a few removals and re-insertions so that the slot order is not the insertion order
+    for j in 0..40u32 {
+        let id = (rng(&mut st) % n as u64) as u32;
+        if let Some((k, p)) = q.remove(&id) {
+            if j % 2 == 0 {
+                q.push(k, p);
+            }
+        }
+    }
+    let n = q.len();
+    let ids: HashSet<u32> = q.iter().map(|(k, _)| k.id).collect();
+    if ids.len() != n {
+        return Err((Group::IterStd, "iter", format!("iter() over {} elements yields {} distinct items", n, ids.len())));
+    }
+    // generic walk: a few from the front, a few from the back, probes, then the rest; returns what was yielded
+    fn walk<T>(
+        what: &'static str,
+        n: usize,
+        exact: bool,
+        st: &mut u64,
+        mut next: impl FnMut() -> Option<T>,
+        mut back: Option<&mut dyn FnMut() -> Option<T>>,
+        probe: &dyn Fn() -> (Option<usize>, (usize, Option<usize>)),
+        id: impl Fn(&T) -> u32,
+    ) -> Result<Vec<u32>, (Group, &'static str, String)> {
+        let g = if what == "iter_mut" { Group::IterMutContract } else { Group::IterStd };
+        let mut out = Vec::with_capacity(n);
+        let mut left = n;
+        let check = |left: usize, at: &str| -> Result<(), (Group, &'static str, String)> {
+            let (len, (lo, hi)) = probe();
+            if let Some(l) = len {
+                if l != left {
+                    return Err((g, what, format!("{}: len() = {} with {} elements left ({})", what, l, left, at)));
+                }
+            }
+            let ok = if exact { lo == left && hi == Some(left) } else { lo <= left && hi.map_or(true, |h| h >= left) };
+            if !ok {
+                return Err((g, what, format!("{}: size_hint() = ({}, {:?}) with {} elements left ({})", what, lo, hi, left, at)));
+            }
+            Ok(())
+        };
+        check(left, "fresh")?;
+        let a = (rng(st) % 300) as usize;
+        let b = (rng(st) % 300) as usize;
+        for _ in 0..a.min(left) {
+            match next() {
+                Some(x) => out.push(id(&x)),
+                None => return Err((g, what, format!("{}: next() returned None with {} elements left", what, left))),
+            }
+            left -= 1;
+        }
+        check(left, "after a prefix")?;
+        if let Some(bk) = back.as_mut() {
+            for _ in 0..b.min(left) {
+                match bk() {
+                    Some(x) => out.push(id(&x)),
+                    None => return Err((g, what, format!("{}: next_back() returned None with {} elements left", what, left))),
+                }
+                left -= 1;
+            }
+            check(left, "after a prefix and a suffix")?;
+        }
+        let mut i = 0usize;
+        while left > 0 {
+            let from_back = back.is_some() && i % 5 == 4;
+            let r = if from_back { (back.as_mut().unwrap())() } else { next() };
+            match r {
+                Some(x) => out.push(id(&x)),
+                None => return Err((g, what, format!("{}: returned None with {} elements left", what, left))),
+            }
+            left -= 1;
+            i += 1;
+            if left == 65_536 || left == 65_535 || left == 256 || left == 255 || left == 1 {
+                check(left, "near a power of two")?;
+            }
+        }
+        check(0, "exhausted")?;
+        for _ in 0..3 {
+            if next().is_some() {
+                return Err((g, what, format!("{}: yields an element after exhaustion", what)));
+            }
+            if let Some(bk) = back.as_mut() {
+                if bk().is_some() {
+                    return Err((g, what, format!("{}: yields an element from the back after exhaustion", what)));
+                }
+            }
+        }
+        Ok(out)
+    }
+    let judge = |what: &'static str, out: Vec<u32>| -> R {
+        let g = if what == "iter_mut" { Group::Alias } else { Group::IterStd };
+        if out.len() != n {
+            return Err((g, what, format!("{} over {} elements yielded {}", what, n, out.len())));
+        }
+        let set: HashSet<u32> = out.iter().copied().collect();
+        if set.len() != n || set != ids {
+            return Err((g, what, format!("{} over {} elements yielded {} distinct items (each must come exactly once)", what, n, set.len())));
+        }
+        Ok(())
+    };
+    // iter / &q
+    for (what, via_ref) in [("iter", false), ("ref_into_iter", true)] {
+        let it = std::cell::RefCell::new(if via_ref { q.ref_into_iter() } else { q.iter() });
+        let mut bk = || it.borrow_mut().next_back();
+        let out = walk(what, n, true, &mut st, || it.borrow_mut().next(), Some(&mut bk), &|| (Some(it.borrow().len()), it.borrow().size_hint()), |x: &(&Key, &Prio)| x.0.id)?;
+        judge(what, out)?;
+    }
+    // into_iter
+    {
+        let it = std::cell::RefCell::new(q.clone().into_iter_owned());
+        let mut bk = || it.borrow_mut().next_back();
+        let out = walk("into_iter", n, true, &mut st, || it.borrow_mut().next(), Some(&mut bk), &|| (Some(it.borrow().len()), it.borrow().size_hint()), |x: &(Key, Prio)| x.0.id)?;
+        judge("into_iter", out)?;
+    }
+    // drain
+    {
+        let mut c2 = q.clone();
+        {
+            let it = std::cell::RefCell::new(c2.drain());
+            let mut bk = || it.borrow_mut().next_back();
+            let out = walk("drain", n, true, &mut st, || it.borrow_mut().next(), Some(&mut bk), &|| (Some(it.borrow().len()), it.borrow().size_hint()), |x: &(Key, Prio)| x.0.id)?;
+            judge("drain", out)?;
+        }
+        if c2.len() != 0 || c2.peek_max().is_some() {
+            return Err((Group::Content, "drain", "the queue is not empty after a full drain".into()));
+        }
+    }
+    // iter_mut (both ends where offered), every yielded reference kept alive
+    {
+        let mut c2 = q.clone();
+        {
+            let it = std::cell::RefCell::new(c2.iter_mut());
+            let has_back = Q::iter_mut_back(&mut it.borrow_mut()).is_some() && false;
+            let _ = has_back;
+            let kept: std::cell::RefCell<Vec<(&mut Key, &mut Prio)>> = std::cell::RefCell::new(Vec::with_capacity(n));
+            let mut next = || {
+                it.borrow_mut().next().map(|x| {
+                    let id = x.0.id;
+                    kept.borrow_mut().push(x);
+                    id
+                })
+            };
+            let mut bk = || {
+                Q::iter_mut_back(&mut it.borrow_mut()).flatten().map(|x| {
+                    let id = x.0.id;
+                    kept.borrow_mut().push(x);
+                    id
+                })
+            };
+            let out = walk(
+                "iter_mut",
+                n,
+                Q::DOUBLE,
+                &mut st,
+                &mut next,
+                if Q::DOUBLE { Some(&mut bk) } else { None },
+                &|| Q::iter_mut_len(&it.borrow()),
+                |x: &u32| *x,
+            )?;
+            judge("iter_mut", out)?;
+            let kept = kept.into_inner();
+            let mut addrs: Vec<usize> = kept.iter().map(|x| &*x.1 as *const Prio as usize).collect();
+            addrs.sort_unstable();
+            addrs.dedup();
+            if addrs.len() != n {
+                return Err((Group::Alias, "iter_mut", format!("iter_mut over {} elements handed out {} distinct priority references", n, addrs.len())));
+            }
+        }
+    }
+    // the sorted iterator: exact length where declared, a few steps from either end
+    {
+        let it = std::cell::RefCell::new(q.clone().into_sorted_iter());
+        let (len, (lo, hi)) = Q::sorted_len(&it.borrow());
+        if len.map_or(false, |l| l != n) || lo > n || hi.map_or(false, |h| h < n) || (Q::DOUBLE && (lo != n || hi != Some(n))) {
+            return Err((Group::IterStd, "sorted_iter", format!("into_sorted_iter over {} elements: len() {:?} size_hint ({}, {:?})", n, len, lo, hi)));
+        }
+        let mut left = n;
+        for j in 0..600usize {
+            let r = if Q::DOUBLE && j % 3 == 1 { Q::sorted_back(&mut it.borrow_mut()).flatten() } else { it.borrow_mut().next() };
+            if r.is_none() != (left == 0) {
+                return Err((Group::IterStd, "sorted_iter", format!("into_sorted_iter: step {} returned {} with {} left", j, if r.is_none() { "None" } else { "an element" }, left)));
+            }
+            left = left.saturating_sub(1);
+            let (len, (lo, hi)) = Q::sorted_len(&it.borrow());
+            if len.map_or(false, |l| l != left) || lo > left || hi.map_or(false, |h| h < left) {
+                return Err((Group::IterStd, "sorted_iter", format!("into_sorted_iter with {} left: len() {:?} size_hint ({}, {:?})", left, len, lo, hi)));
+            }
+        }
+    }
+    Ok(())
+}
+
 fn run<Q: Queue>(c: &HugeCase) -> R {
     set_default_hb(HasherKind::Xx);
     let n = c.n;
@@ -835,6 +1045,8 @@ pub fn huge_verdict(c: &HugeCase) -> Result<(), Failure> {
     let r = match (c.kind, c.script) {
         (Kind::PQ, 0) => run::<PqHb>(c),
         (Kind::DPQ, 0) => run::<DpqHb>(c),
+        (Kind::PQ, 2) => run_iters::<PqHb>(c),
+        (Kind::DPQ, 2) => run_iters::<DpqHb>(c),
         (Kind::PQ, _) => run_positions::<PqHb>(c, prop),
         (Kind::DPQ, _) => run_positions::<DpqHb>(c, prop),
     };
